@@ -47,11 +47,14 @@ package replicator
 //@   ensures r.max == 0 && r.progress == 0
 //@   modifies r.max, r.progress
 
+// wfr(r): the replicator's components exist (set once by NewReplicator, never nil afterwards)
+//@ spec func wfr(r Int) Bool = r != 0 && ptr(r, "replicator.replicator").queue != nil && ptr(r, "replicator.replicator").tasks != nil && ptr(r, "replicator.replicator").store != nil && ptr(r, "replicator.replicator").sem != nil && ptr(r, "replicator.replicator").logger != nil && ptr(r, "replicator.replicator").tracer != nil && ptr(r, "replicator.replicator").eventBus != nil && ptr(r, "replicator.replicator").emitters.evtLoadEnd != nil && ptr(r, "replicator.replicator").emitters.evtLoadAdded != nil && ptr(r, "replicator.replicator").emitters.evtLoadProgress != nil
+
 // ---- C13: the unfinished queue saved with a snapshot ----
 // GetQueue never panics and returns exactly the hashes whose task is added or fetching, each once.
 //@ func (*replicator).GetQueue
 //@   props C13
-//@   requires r.queue != nil
+//@   requires wfr(r)
 //@   loop 1 invariant forall j Int :: 0 <= j && j < len(fetching) ==> $seen[fetching[j]] && (fetching[j] in r.tasks) && r.tasks[fetching[j]] != stateFetched
 //@   loop 1 invariant forall c V_cid_Cid :: $seen[c] && r.tasks[c] != stateFetched ==> (exists j Int :: 0 <= j && j < len(fetching) && fetching[j] == c)
 //@   loop 1 invariant forall i Int, j Int :: 0 <= i && i < j && j < len(fetching) ==> fetching[i] != fetching[j]
@@ -114,7 +117,7 @@ package replicator
 //@ func (*replicator).AddHashToQueue
 //@   props C11 C10
 //@   flag nilcalls
-//@   requires r.queue != nil && r.tasks != nil && r.store != nil
+//@   requires wfr(r)
 //@   ghost Q0 := deref(r.queue)
 //@   ensures exist == (old(hash in r.tasks) || inLog(stLog(r.store), hash))
 //@   ensures exist ==> deref(r.queue) == Q0 && (forall h V_cid_Cid :: (h in r.tasks) == old(h in r.tasks) && r.tasks[h] == old(r.tasks[h]))
@@ -123,7 +126,7 @@ package replicator
 //@ func (*replicator).AddEntryToQueue
 //@   props C11 C10
 //@   flag nilcalls
-//@   requires r.queue != nil && r.tasks != nil && r.store != nil && entry != nil && ref(entry) != 0
+//@   requires wfr(r) && entry != nil && ref(entry) != 0
 //@   ghost Q0 := deref(r.queue)
 //@   ghost hash := hashOf(entry)
 //@   ensures exist == (old(hash in r.tasks) || inLog(stLog(r.store), hash))
@@ -133,7 +136,7 @@ package replicator
 // isIdle: true only when no task is added or fetching.
 //@ func (*replicator).isIdle
 //@   props C11
-//@   requires r.queue != nil
+//@   requires wfr(r)
 //@   loop 1 invariant forall h V_cid_Cid :: $seen[h] ==> r.tasks[h] != stateAdded && r.tasks[h] != stateFetching
 //@   ensures result ==> (forall h V_cid_Cid :: (h in r.tasks) ==> r.tasks[h] != stateAdded && r.tasks[h] != stateFetching)
 //@   modifies nothing
@@ -142,7 +145,7 @@ package replicator
 //@ func (*replicator).idle
 //@   props C11 C10
 //@   flag nilcalls
-//@   requires r.emitters.evtLoadEnd != nil && r.logger != nil
+//@   requires wfr(r)
 //@   ghost E := r.emitters.evtLoadEnd
 //@   ensures len(old(r.buffer)) > 0 ==> evCount(E) == old(evCount(E)) + 1 && len(r.buffer) == 0 && unbox(evLast(E), "V_replicator_EventLoadEnd").Logs == old(r.buffer)
 //@   ensures len(old(r.buffer)) == 0 ==> evCount(E) == old(evCount(E)) && r.buffer == old(r.buffer)
@@ -153,7 +156,7 @@ package replicator
 //@ func (*replicator).processEntryDone
 //@   props C11
 //@   flag nilcalls
-//@   requires item != nil && r.queue != nil && r.tasks != nil && r.sem != nil && r.emitters.evtLoadEnd != nil && r.logger != nil
+//@   requires item != nil && wfr(r)
 //@   ghost h := itemHash(item)
 //@   ensures fetched ==> (h in r.tasks) && r.tasks[h] == stateFetched
 //@   ensures !fetched ==> !(h in r.tasks)
@@ -167,7 +170,7 @@ package replicator
 //@ func (*replicator).waitForProcessSlot
 //@   props C11
 //@   flag nilcalls
-//@   requires r.queue != nil && r.tasks != nil && r.sem != nil && r.emitters.evtLoadEnd != nil && r.logger != nil
+//@   requires wfr(r)
 //@   requires len(deref(r.queue)) > 0 && (forall j Int :: 0 <= j && j < len(deref(r.queue)) ==> deref(r.queue)[j] != nil)
 //@   ghost Q0 := deref(r.queue)
 //@   ensures len(deref(r.queue)) == len(Q0) - 1 && (forall j Int :: 0 <= j && j < len(deref(r.queue)) ==> deref(r.queue)[j] == Q0[j + 1])
@@ -189,7 +192,7 @@ package replicator
 //@ func (*replicator).processOne
 //@   props C11
 //@   flag nilcalls
-//@   requires r.queue != nil && r.tasks != nil && r.sem != nil && r.emitters.evtLoadEnd != nil && r.logger != nil
+//@   requires wfr(r)
 //@   requires len(deref(r.queue)) > 0 && (forall j Int :: 0 <= j && j < len(deref(r.queue)) ==> deref(r.queue)[j] != nil)
 //@   ghost Q0 := deref(r.queue)
 //@   ghost H0 := semHeld(r.sem)
@@ -212,7 +215,7 @@ package replicator
 //@   props C04 C10 C11 C03
 //@   safety C10 C11
 //@   flag nilcalls
-//@   requires r.store != nil && item != nil && r.logger != nil
+//@   requires wfr(r) && item != nil
 //@   ghost B0 := r.buffer
 //@   loop 1 invariant r.buffer == B0
 //@   loop 1 invariant @C04 @C03 forall j Int :: 0 <= j && j < $i ==> ptr($coll[j], "entry.Entry").LogID == logID(boxptr(l, "berty.tech/go-ipfs-log.IPFSLog"))
